@@ -154,11 +154,12 @@ LABELS = ["web", "db", "app", "a", "b", "x1", "prod", "dev", "gw", "node7"]
 DOMAINS = ["example.com", "corp.example", "lan", "example.org"]
 USERS = ["alice", "bob", "root", "deploy", "admin", "ops1"]
 IDFILES = ["~/.ssh/id_%h_k1", "%d/keys/%u_k2", "/etc/%r/%l_k3", "plain_k4", "/c/%C_k5", "~/%h/%h_k6",
-           "/k/%h-%p_k7"]
+           "/k/%h-%p_k7", "keys/~/id_k8", "/x/~~_k9", "%h%u_k10", "k11_~"]
 HOSTNAME_VALUES = ["%h.example.com", "gw-%h", "10.0.0.7", "%h", "real.corp.example", "%h.%h.lan", "h-%p-%h", "%n.x"]
 PROXY_VALUES = ["ssh -W %h:%p gw", "none", "NONE", "None", "nc -x ~/%r %h %p", "ssh -q %r@jump nc %h %p",
-                "connect ~ %u %n"]
-CONTROL_VALUES = ["~/.ssh/cm-%r@%h:%p", "/tmp/%C", "/tmp/%L-%l-%n-%u", "/run/%u/%h.sock", "%d/cm/%n"]
+                "connect ~ %u %n", "ssh -F ~/.ssh/bastion_config -W net:22 bastion", "cat ~", "a~b~c", "%h", "x %p%p"]
+CONTROL_VALUES = ["~/.ssh/cm-%r@%h:%p", "/tmp/%C", "/tmp/%L-%l-%n-%u", "/run/%u/%h.sock", "%d/cm/%n", "/tmp/~/cm",
+                  "%n%n", "/tmp/cm-%u"]
 JUMP_VALUES = ["%r@%h:%p", "jump.example.com", "bastion-%h"]
 PLAIN_KEYS = {
     "user": USERS,
@@ -278,15 +279,16 @@ def gen_canon_lines(rng):
     return out
 
 
-def gen_criteria(rng, hosts, static):
+def gen_criteria(rng, hosts, static, ban=()):
     if rng.random() < 0.2:
         pre = []
-        if rng.random() < 0.4:
+        if rng.random() < 0.4 and "canonical" not in ban:
             pre = [("canonical", rng.random() < 0.5, "")]
         return pre + [("all", False, "")]
     out = []
     kinds = ["originalhost", "localuser"] if static else ["host", "originalhost", "user", "localuser", "final", "host",
                                                          "user", "exec"]
+    kinds = [k for k in kinds if k not in ban]
     for _ in range(rng.choice([1, 1, 2, 3])):
         t = rng.choice(kinds)
         neg = rng.random() < 0.2
@@ -304,12 +306,12 @@ def gen_criteria(rng, hosts, static):
             pats = [p for p in pats if "%" not in p or t == "host"]
             pats = pats or ["*"]
         out.append((t, neg, ",".join(pats)))
-    if rng.random() < 0.2:
+    if rng.random() < 0.2 and "canonical" not in ban:
         out.insert(0, ("canonical", rng.random() < 0.5, ""))
     return out
 
 
-def gen_config(rng, static, canon=False):
+def gen_config(rng, static, canon=False, forward=False):
     hosts = [gen_host(rng) for _ in range(rng.choice([2, 3, 4]))]
     names = list(hosts)                 # the names looked up
     resolvable = []
@@ -327,7 +329,26 @@ def gen_config(rng, static, canon=False):
             pats = [gen_pattern(rng, rng.choice(hosts)) for _ in range(rng.choice([1, 1, 2, 2, 3, 4]))]
             blocks.append({"host": pats, "body": gen_body(rng)})
         else:
-            blocks.append({"match": gen_criteria(rng, hosts, static), "body": gen_body(rng)})
+            blocks.append({"match": gen_criteria(rng, hosts, static, ban=("final", "canonical") if forward else ()),
+                           "body": gen_body(rng)})
+    if forward:
+        # a Match host / user block placed BEFORE the block that sets the HostName / User it tests, in a file
+        # without any final / canonical criterion: only the second walk over the blocks lets it apply
+        for _ in range(rng.choice([1, 1, 2])):
+            if rng.random() < 0.6:
+                val = rng.choice(["real.corp.example", "10.0.0.7", "gw-%h", "%h.example.com", "db9.lan"])
+                crit, line = "host", ("hostname", val)
+            else:
+                val = rng.choice(USERS)
+                crit, line = "user", ("user", val)
+            pat = gen_pattern(rng, val, allow_neg=False) if rng.random() < 0.6 else val
+            early = {"match": [(crit, False, pat)] + ([("localuser", False, "*")] if rng.random() < 0.3 else []),
+                     "body": gen_body(rng) or [("compression", "yes")]}
+            late = {"host": [gen_pattern(rng, rng.choice(names), allow_neg=False), names[0]],
+                    "body": [line] + gen_body(rng, 2)}
+            i = rng.randrange(len(blocks) + 1)
+            blocks.insert(i, early)
+            blocks.insert(rng.randrange(i + 1, len(blocks) + 1), late)
     glob = gen_body(rng, 3) if rng.random() < 0.3 else []
     if canon:
         where = rng.random()
@@ -831,6 +852,9 @@ def record_distribution(ctx, cfg):
                 bump("crit-comma-list")
                 if any(x.startswith("!") for x in param.split(",")):
                     bump("crit-comma-list-with-negated-pattern")
+    if not any("match" in b and any(t in ("final", "canonical") for t, _, _ in b["match"]) for b in cfg["blocks"]) \
+            and any("match" in b and any(t in ("host", "user") for t, _, _ in b["match"]) for b in cfg["blocks"]):
+        bump("config-host/user-criteria-without-final/canonical")
     keys = {k for k, _ in cfg["global"]} | {k for b in cfg["blocks"] for k, _ in b["body"]}
     for k in ("canonicalizehostname", "canonicaldomains", "canonicalizemaxdots", "canonicalizefallbacklocal"):
         if k in keys:
@@ -858,6 +882,15 @@ def check_hostnames(ctx, cfg, text):
 
 # directed cases (run first on every seed): the three repaired defects and parser quirks
 DIRECTED = [
+    # forward dependencies: the Match block precedes the block that sets the HostName / User it tests and the
+    # file has no final / canonical criterion; and Match host on the DEFAULTED HostName
+    ({"global": [], "resolvable": [],
+      "blocks": [{"match": [("host", False, "*.internal")], "body": [("user", "deploy"), ("identityfile", "/k/int_%h")]},
+                 {"match": [("user", False, "svc")], "body": [("port", "2200"), ("proxycommand", "ssh -F ~/.ssh/b_cfg gw")]},
+                 {"host": ["app*"], "body": [("hostname", "%h.internal"), ("identityfile", "keys/~/id")]},
+                 {"host": ["db*"], "body": [("user", "svc")]},
+                 {"match": [("host", True, "app*,db*")], "body": [("compression", "yes")]}]},
+     ["app1", "db1", "other"]),
     # canonical re-lookup: HostName of the first pass is overwritten, Host / originalhost see the canonical
     # name, Match canonical passes, first-pass options are kept
     ({"global": [("canonicalizehostname", "yes"), ("canonicaldomains", "x.y  lan")],
@@ -926,12 +959,16 @@ def run(ctx):
                 "ProxyJump, quoted values, 'ProxyCommand none', Match all/canonical/final/host/originalhost/user/"
                 "localuser/exec with negation and comma lists; 30% of the configs carry CanonicalizeHostname / "
                 "CanonicalDomains / CanonicalizeMaxDots / CanonicalizeFallbackLocal with a stub resolver, Match exec "
-                "runs through a stub installed as paramiko.config.invoke; the histogram of criteria combinations "
+                "runs through a stub installed as paramiko.config.invoke; a third of the option-dependent configs are "
+                "'forward' ones: a Match host/user block placed before the block that sets the HostName/User it "
+                "tests, in a file without final/canonical criteria; token values put %x and ~ at the start, in the "
+                "middle, at the end, repeated and adjacent, with and without a % in the value; the histogram of criteria combinations "
                 "and lookup outcomes is in input_distribution) rendered to text with random layout/case/separators/comments and parsed "
                 "by the real SSHConfig; 60% of the configs use option-independent criteria only (the oracle is exact for every criterion); "
                 "every rendered config is also compared block by block with the parser's _config (parse round trip); "
                 "each config is parsed once and serves all its lookups (first name looked up again at the end, returned "
-                "lists scribbled on by the caller in between; the parsed _config must stay unchanged); "
+                "lists scribbled on by the caller in between; the parsed _config must stay unchanged), and the previous "
+                "config's object is looked up again after the next one was parsed and used (two live objects); "
                 "8 malformed texts must raise ConfigParseError; random hostnames; 4 pinned environments; a case is non-trivial when distinct and at least one "
                 "block other than the implicit global one exists")
     ctx.trusted += ["model coq/Model/C40.v is hand-written; tied to paramiko/config.py by coq/Gen/C40_gen.v (token "
@@ -954,8 +991,10 @@ def run(ctx):
         todo = [(cfg, hosts, True) for cfg, hosts in DIRECTED]
         for i in range(n_cfg):
             static = rng.random() < 0.6
-            cfg, hosts = gen_config(rng, static, canon=rng.random() < 0.3)
+            forward = (not static) and rng.random() < 0.35
+            cfg, hosts = gen_config(rng, static, canon=(not forward) and rng.random() < 0.3, forward=forward)
             todo.append((cfg, hosts, False))
+        prev_obj = None
         for idx, (cfg, hosts, directed) in enumerate(todo):
             text = render(cfg, rng)
             envt = (ENVS[idx % len(ENVS)] if directed else rng.choice(ENVS)) + (tuple(cfg.get("resolvable", ())),)
@@ -1007,6 +1046,27 @@ def run(ctx):
                 impl[host] = got if outcome[0] == "out" else "raises " + outcome[1]
                 if got is not None and len(ctx.samples) < 2 and len(cfg["blocks"]) >= 2 and not directed:
                     ctx.sample({"lookup": {"text": text, "host": host, "env": list(envt), "impl": got}})
+            # two live objects: the previous config's object is used again after this one was built and used
+            if prev_obj is not None:
+                p_sc, p_host, p_envt, p_res, p_text = prev_obj
+                set_env(p_envt)
+                try:
+                    again = copy.deepcopy(dict(p_sc.lookup(p_host)))
+                except Exception as e:  # noqa
+                    again = "raises " + type(e).__name__
+                ctx.count(("again", p_text, p_host), nontrivial=False, kind="lookup-on-earlier-object")
+                if again != p_res:
+                    ctx.fail("state-shared-between-objects", "a lookup on an SSHConfig object changes after another "
+                             "SSHConfig object was parsed and used", case={"text": p_text, "host": p_host,
+                                                                           "env": list(p_envt), "other_text": text},
+                             expected=p_res, observed=again)
+            if sc_obj is not None and hosts:
+                set_env(envt)
+                try:
+                    first = copy.deepcopy(dict(sc_obj.lookup(hosts[0])))
+                except Exception as e:  # noqa
+                    first = "raises " + type(e).__name__
+                prev_obj = (sc_obj, hosts[0], envt, first, text)
             if sc_obj is not None and [dict(x) for x in sc_obj._config] != before:
                 after = [dict(x) for x in sc_obj._config]
                 i = next(j for j in range(len(before)) if after[j] != before[j])
